@@ -128,7 +128,7 @@ Next ==
         /\ \E r \in RecPool : \E f \in {Fresh2(r.uid)} :
               Step(InsertCopy(r, f), [Op("InsertCopy") EXCEPT !.fresh = f,
                      !.rec = <<[uid |-> r.uid, alias |-> r.alias, kind |-> r.kind, d |-> Toks(r.def), conv |-> r.conv, term |-> r.term, text |-> r.text]>>])
-     \/ /\ "InsertBulk" \in OpSet /\ Cardinality(Ids) + 3 <= MaxCst + 2 /\ (Len(hist) = 0 \/ (Preset # "deps" /\ MaxLen <= 3 /\ Len(hist) < 2))
+     \/ /\ "InsertBulk" \in OpSet /\ Cardinality(Ids) + 3 <= MaxCst + 2 /\ ((Len(hist) = 0 /\ (Preset # "names" \/ MaxLen <= 3)) \/ (Preset # "deps" /\ MaxLen <= 3 /\ Len(hist) < 2))
         /\ \E rs \in BulkPool : LET fr == SelectSeq(<<91, 92, 93, 94, 95, 96>>, LAMBDA x : x \notin Ids) IN     \* the generator's next free identifiers
               Step(InsertBulk(rs, fr), [Op("InsertBulk") EXCEPT !.w = <<>>, !.q = <<>>,
                      !.rec = [i \in DOMAIN rs |-> [uid |-> rs[i].uid, alias |-> rs[i].alias, kind |-> rs[i].kind, d |-> Toks(rs[i].def), conv |-> rs[i].conv, term |-> rs[i].term, text |-> rs[i].text]]])
